@@ -19,6 +19,7 @@
 #include <boost/graph/detail/d_ary_heap.hpp>
 
 #include <parmcb/detail/util.hpp>
+#include <parmcb/detail/verif.hpp>
 
 namespace std {
 
@@ -348,6 +349,7 @@ namespace parmcb {
                 const WeightType c = combine(d_u, get(weight_map, e));
                 if (use_cycle_weight_limit && !frontier.get().compare(c, cycle_weight_limit)) {
                     // never insert if more than current minimum
+                    PARMCB_VERIF_PROBE(dijkstra_limit_prune);
                     continue;
                 }
 
@@ -387,6 +389,7 @@ namespace parmcb {
             Edge e = std::get<2>(p);
             if (!cycle.insert(e).second) {
                 // duplicate edge, discard cycle
+                PARMCB_VERIF_PROBE(dijkstra_duplicate_edge);
                 return std::make_tuple(std::set<Edge> { }, distance_inf, false);
             } else {
                 cycle_weight += boost::get(weight_map, e);
@@ -401,6 +404,7 @@ namespace parmcb {
             Edge e = std::get<2>(p);
             if (!cycle.insert(e).second) {
                 // duplicate edge, discard cycle
+                PARMCB_VERIF_PROBE(dijkstra_duplicate_edge);
                 return std::make_tuple(std::set<Edge> { }, distance_inf, false);
             } else {
                 cycle_weight += boost::get(weight_map, e);
